@@ -76,6 +76,9 @@ class AF(ASTNode):
 class AO(ASTNode):
     c: ASTNode | None = None
 
+    def __bool__(self) -> bool:  # falsy in a boolean context
+        return False
+
 @dataclass(frozen=True)
 class AT(ASTNode):
     items: tuple[ASTNode, ...] = ()
